@@ -49,7 +49,9 @@ type cell struct {
 	group string   // coordinates without value class and mode: unit of level-2 sampling
 	mode  string   // dynamic | relaxed | strict
 	solo  bool     // must run alone (an error is an acceptable/expected outcome)
-	body  []string // Ego statements of the cell function
+	pre   []string // file-scope declarations placed before the cell function ("@N@" = the cell's index in the program)
+	body  []string // Ego statements of the cell function ("@N@" as above)
+	cfold bool     // compile with same-unit constant folding on (ego.compiler.constfold, the default); off for the classic families
 	eval  func(o outcome) []finding
 	agree string // non-empty: cells sharing this tag (same mode/level) must have equal outcome signatures
 }
@@ -65,10 +67,16 @@ var padLines = func() []string {
 	return out
 }()
 
-func cellFunc(name string, c *cell, opt int) string {
+func cellFunc(idx int, c *cell, opt int) string {
 	var b strings.Builder
 
-	fmt.Fprintf(&b, "func %s() {\n", name)
+	n := fmt.Sprint(idx)
+
+	for _, l := range c.pre {
+		b.WriteString(strings.ReplaceAll(l, "@N@", n) + "\n")
+	}
+
+	fmt.Fprintf(&b, "func c%d() {\n", idx)
 
 	if opt == 1 {
 		for _, l := range padLines {
@@ -77,7 +85,7 @@ func cellFunc(name string, c *cell, opt int) string {
 	}
 
 	for _, l := range c.body {
-		b.WriteString("\t" + l + "\n")
+		b.WriteString("\t" + strings.ReplaceAll(l, "@N@", n) + "\n")
 	}
 
 	b.WriteString("}\n")
@@ -91,7 +99,7 @@ func program(cs []*cell, opt int) string {
 	b.WriteString("import \"fmt\"\n\n")
 
 	for i, c := range cs {
-		b.WriteString(cellFunc(fmt.Sprintf("c%d", i), c, opt))
+		b.WriteString(cellFunc(i, c, opt))
 	}
 
 	b.WriteString("func main() {\n")
@@ -105,8 +113,15 @@ func program(cs []*cell, opt int) string {
 	return b.String()
 }
 
-func cfgFor(mode string, opt int) egorun.Config {
-	return egorun.Config{Types: mode, Opt: opt}
+// runCfg is the part of the interpreter configuration that is a table coordinate:
+// optimizer level and the global-reference cache (ego.runtime.globalcache).
+type runCfg struct {
+	Opt int  `json:"opt"`
+	GC  bool `json:"gc"`
+}
+
+func cfgFor(c *cell, rc runCfg) egorun.Config {
+	return egorun.Config{Types: c.mode, Opt: rc.Opt, GlobalCache: rc.GC, ConstFold: c.cfold}
 }
 
 type runStats struct {
@@ -114,9 +129,10 @@ type runStats struct {
 }
 
 // runSolo runs one cell as its own program.
-func runSolo(c *cell, opt int, st *runStats) outcome {
+func runSolo(c *cell, rc runCfg, st *runStats) outcome {
+	opt := rc.Opt
 	src := program([]*cell{c}, opt)
-	res := egorun.Run(src, cfgFor(c.mode, opt))
+	res := egorun.Run(src, cfgFor(c, rc))
 	st.programs++
 	st.soloRuns++
 
@@ -134,9 +150,29 @@ func runSolo(c *cell, opt int, st *runStats) outcome {
 	return o
 }
 
-// runCells runs all cells (one mode, one optimizer level) and calls done for each.
-func runCells(cs []*cell, opt int, batch int, st *runStats, done func(c *cell, o outcome)) {
+// runCells runs all cells (one mode, one configuration) and calls done for each.
+func runCells(all []*cell, rc runCfg, batch int, st *runStats, done func(c *cell, o outcome)) {
+	// constant folding is a compile-time switch: one pass per value
+	for _, cf := range []bool{false, true} {
+		var cs []*cell
+
+		for _, c := range all {
+			if c.cfold == cf {
+				cs = append(cs, c)
+			}
+		}
+
+		if len(cs) > 0 {
+			runCellsOne(cs, rc, batch, st, done)
+		}
+	}
+}
+
+func runCellsOne(cs []*cell, rc runCfg, batch int, st *runStats, done func(c *cell, o outcome)) {
 	var pending []*cell
+
+	opt := rc.Opt
+	breaksInARow := 0
 
 	flush := func() {
 		for len(pending) > 0 {
@@ -148,8 +184,19 @@ func runCells(cs []*cell, opt int, batch int, st *runStats, done func(c *cell, o
 			group := pending[:n]
 			pending = pending[n:]
 
+			if breaksInARow >= 2 {
+				// a cluster of failing cells: re-batching after every failure is quadratic, run them alone
+				for _, c := range group {
+					done(c, runSolo(c, rc, st))
+				}
+
+				breaksInARow = 0
+
+				continue
+			}
+
 			src := program(group, opt)
-			res := egorun.Run(src, cfgFor(group[0].mode, opt))
+			res := egorun.Run(src, cfgFor(group[0], rc))
 			st.programs++
 
 			// split the output at the markers
@@ -195,21 +242,26 @@ func runCells(cs []*cell, opt int, batch int, st *runStats, done func(c *cell, o
 				done(group[i], outcome{lines: segs[i], program: src})
 			}
 
+			if complete == len(group) {
+				breaksInARow = 0
+			}
+
 			if complete < len(group) {
 				// the cell that stopped the batch is judged on its own program; the rest is re-batched
 				st.batchBreaks++
+				breaksInARow++
 
 				if res.CompileErr || cur < 0 {
 					// nothing ran: every cell alone
 					for _, c := range group {
-						done(c, runSolo(c, opt, st))
+						done(c, runSolo(c, rc, st))
 					}
 
 					continue
 				}
 
 				bad := group[complete]
-				o := runSolo(bad, opt, st)
+				o := runSolo(bad, rc, st)
 
 				if o.err == "" && o.panic == "" {
 					// alone it completes, in the batch it stopped the program: report the batch outcome as it happened
@@ -225,7 +277,7 @@ func runCells(cs []*cell, opt int, batch int, st *runStats, done func(c *cell, o
 
 	for _, c := range cs {
 		if c.solo {
-			done(c, runSolo(c, opt, st))
+			done(c, runSolo(c, rc, st))
 
 			continue
 		}
